@@ -161,6 +161,12 @@ class Ctx:
 
     # ----------------------------------------------------------------------------------------------
     def to_partial(self):
+        try:
+            from . import kpx
+            for r_, n_ in kpx.route_counts.items():
+                self.monitor_events['import_route:' + r_] = n_
+        except Exception:  # noqa
+            pass
         return {
             'evaluations': self.evaluations,
             'nontrivial': sorted(self.nontrivial),
